@@ -350,6 +350,33 @@ impl Index {
         }
     }
 
+    /// Where the `n`th line (counting from zero, not counting the lines of meta
+    /// sections) starts and the full timestamp of the section it is in. Only
+    /// valid for lines that exist.
+    pub(crate) fn line_pos(
+        &self,
+        n: u64,
+        payload_size: PayloadSize,
+    ) -> Option<(LinePos, Timestamp)> {
+        let line_size = payload_size.line_size() as u64;
+        let meta_lines =
+            super::inline_meta::meta::lines_per_metainfo(payload_size.raw()) as u64;
+        let mut found = None;
+        for (i, entry) in self.entries.iter().enumerate() {
+            // lines stored before this section
+            let before = entry.meta_start.0 / line_size - i as u64 * meta_lines;
+            if before > n {
+                break;
+            }
+            let start = entry.meta_start.line_start(payload_size).0;
+            found = Some((
+                LinePos(start + (n - before) * line_size),
+                entry.timestamp,
+            ));
+        }
+        found
+    }
+
     pub(crate) fn clear(&mut self) -> Result<(), std::io::Error> {
         self.file.set_len(0)?;
         self.entries.clear();
